@@ -57,11 +57,12 @@ def add_rpdo(cfg, num, cobid, typ, maps, nmap_slots=8):
         cfg.add(var(0x1600 + num, i + 1, RW, 4, maps[i] if i < len(maps) else 0, "pdomap"))
 
 
-def add_tpdo(cfg, num, cobid, typ, inhibit, event, maps, nmap_slots=8):
+def add_tpdo(cfg, num, cobid, typ, inhibit, event, maps, nmap_slots=8, with_inhibit=True):
     cfg.add(var(0x1800 + num, 0, D | R, 1, 5))
     cfg.add(var(0x1800 + num, 1, N | RW, 4, cobid, "pdoid"))
     cfg.add(var(0x1800 + num, 2, RW, 1, typ, "pdotype"))
-    cfg.add(var(0x1800 + num, 3, RW, 2, inhibit))
+    if with_inhibit:               # the inhibit time is an optional sub-entry of the record
+        cfg.add(var(0x1800 + num, 3, RW, 2, inhibit))
     cfg.add(var(0x1800 + num, 5, RW, 2, event, "pdoevent"))
     cfg.add(var(0x1A00 + num, 0, RW, 1, len(maps), "pdonum"))
     for i in range(nmap_slots):
